@@ -11,12 +11,14 @@ import (
 
 	sdk "github.com/cosmos/cosmos-sdk/types"
 
+	transfertypes "github.com/cosmos/ibc-go/v10/modules/apps/transfer/types"
 	clienttypes "github.com/cosmos/ibc-go/v10/modules/core/02-client/types"
 	connectiontypes "github.com/cosmos/ibc-go/v10/modules/core/03-connection/types"
 	channeltypes "github.com/cosmos/ibc-go/v10/modules/core/04-channel/types"
 	commitmenttypes "github.com/cosmos/ibc-go/v10/modules/core/23-commitment/types"
 	host "github.com/cosmos/ibc-go/v10/modules/core/24-host"
 	ibcexported "github.com/cosmos/ibc-go/v10/modules/core/exported"
+	ibctm "github.com/cosmos/ibc-go/v10/modules/light-clients/07-tendermint"
 	ibctesting "github.com/cosmos/ibc-go/v10/testing"
 
 	"cosmossdk.io/math"
@@ -90,6 +92,7 @@ func init() {
 	extraAppliers[KRelay] = applyRelay
 	extraAppliers[KConsumerTx] = applyConsumerTx
 	extraAppliers[KRawPacket] = applyRawPacket
+	extraAppliers[KProbe] = func(w *World, a *Action, idx int) *StepResult { return &StepResult{} }
 }
 
 // instantiateLaunched creates consumer chains for consumers the provider launched (called after provider blocks).
@@ -888,4 +891,42 @@ func applyRawPacket(w *World, a *Action, idx int) *StepResult {
 	p.Malicious = true
 	w.Label("raw-packet")
 	return &StepResult{}
+}
+
+// EnableConsumersLike turns w into an F-world with the same consumer configuration as other.
+func (w *World) EnableConsumersLike(other *World) {
+	of := other.F()
+	cc := of.CCfg
+	w.Ext = &F{Paths: map[string]*Path{}, CCfg: cc, AutoInst: of.AutoInst}
+}
+
+// ProviderVoucherDenom returns the IBC denom under which baseDenom of consumer id arrives on the provider
+// ("" if the transfer channel does not exist yet).
+func (w *World) ProviderVoucherDenom(id, baseDenom string) string {
+	f := w.F()
+	if f == nil {
+		return ""
+	}
+	p, ok := f.Paths[id]
+	if !ok {
+		return ""
+	}
+	pClient, _ := w.clientIDs(p)
+	connID, _, ok := findConn(w.P.Chain, pClient)
+	if !ok {
+		return ""
+	}
+	chID, ch, ok := findChan(w.P.Chain, transfertypes.PortID, connID)
+	if !ok || ch.State != channeltypes.OPEN {
+		return ""
+	}
+	return transfertypes.NewDenom(baseDenom, transfertypes.NewHop(transfertypes.PortID, chID)).IBCDenom()
+}
+
+// ChainIDOfClient returns the chain id a 07-tendermint client state tracks ("" otherwise).
+func ChainIDOfClient(cs ibcexported.ClientState) string {
+	if tm, ok := cs.(*ibctm.ClientState); ok {
+		return tm.ChainId
+	}
+	return ""
 }
